@@ -67,8 +67,8 @@ Theorem f2_loop_exhausts (fb : flat) : frag2 fb = true -> enumerates fb -> fl_er
   (forall k, In k draws -> In k (keys_of fb)) ->
   sample_loop key key_eqb (key_accepted fb) (length (keys_of fb)) requested draws [] [] = Some res ->
   length (keys_of fb) <= requested ->
-  NoDup (map (cand_tseq fb) res) /\
-  (forall s, In s (map (cand_tseq fb) res) <-> valid_b (code_sem fb) s = true).
+  NoDup (map (cand_fseq fb) res) /\
+  (forall s, In s (map (cand_fseq fb) res) <-> valid_b (code_sem fb) s = true).
 Proof.
   intros HF Hex He requested draws res Hd Hrun Hreq.
   destruct (f2_enumerates_memos fb HF Hex) as (m & lm & HM & Hen).
@@ -89,7 +89,7 @@ Proof.
     pose proof (proj1 (Hsub k1 H1)) as Hk1. pose proof (proj1 (Hsub k2 H2)) as Hk2.
     destruct (f2_decode_key fb HF m lm HM Hen k1 (f2_keys_of_ok fb HF m lm HM Hen k1 Hk1)) as [r1 [Hd1 _]].
     destruct (f2_decode_key fb HF m lm HM Hen k2 (f2_keys_of_ok fb HF m lm HM Hen k2 Hk2)) as [r2 [Hd2 _]].
-    unfold cand_tseq in E. rewrite Hd1, Hd2 in E.
+    unfold cand_fseq in E. rewrite Hd1, Hd2 in E.
     apply (f2_cand_inj fb HF k1 k2 r1 r2 Hk1 Hk2 Hd1 Hd2 E).
   - intros s. rewrite <- Hiff. split; intros Hin; apply in_map_iff in Hin; destruct Hin as [k [E Hk]];
       apply in_map_iff; exists k; (split; [exact E | apply Hres; exact Hk]).
@@ -102,7 +102,11 @@ Theorem f1_loop_exhausts (fb : flat) : frag1 fb = true -> fl_errors_fail fb = fa
   length (keys_of fb) <= requested ->
   NoDup (map (cand_tseq fb) res) /\
   (forall s, In s (map (cand_tseq fb) res) <-> valid_b (code_sem fb) s = true).
-Proof. intros HF. exact (f2_loop_exhausts fb (frag1_frag2 fb HF) (f1_enumerates fb HF)). Qed.
+Proof.
+  intros HF He requested draws res Hd Hrun Hreq.
+  rewrite <- (map_ext _ _ (frag1_cand_fseq fb HF)).
+  exact (f2_loop_exhausts fb (frag1_frag2 fb HF) (f1_enumerates fb HF) He requested draws res Hd Hrun Hreq).
+Qed.
 
 Theorem f0_loop_exhausts (fb : flat) : frag0 fb = true -> fl_errors_fail fb = false ->
   forall (requested : nat) (draws res : list key),
